@@ -66,6 +66,12 @@ class Check:
         data = json.loads(KNOWN.read_text())
         return [k for k in data.get("findings", []) if k.get("property") == self.pid]
 
+    def undecided_rule(self, what: str):
+        """record that a rule could not decide (fails the run as analysis-broken unless a violation is reported anyway)"""
+        if not hasattr(self, "undecided"):
+            self.undecided = []
+        self.undecided.append(what)
+
     def finish(self) -> int:
         known = self._known()
         known_keys = {(k["rule"], k["construct"], k.get("cell", "")): k for k in known}
@@ -105,6 +111,13 @@ class Check:
               f"{len(old)} known finding(s), {len(new)} new violation(s); analysed={json.dumps(self.analysed)}")
         for l in lines:
             print(l)
+        undecided = getattr(self, "undecided", [])
+        if undecided:
+            # a rule that could not reach a verdict: no silent pass - but a violation found elsewhere is still the better report
+            for u in undecided:
+                print(f"{'NOTE' if rc else 'ANALYSIS-ERROR'} property={self.pid}: undecided: {u}")
+            if rc == 0:
+                rc = 2
         return rc
 
     def _write_evidence(self, n_viol: int, known_present: list[str]):
